@@ -2,6 +2,7 @@
 package rules
 
 import (
+	"fmt"
 	"strings"
 
 	ssa "xvc/xssa"
@@ -41,3 +42,34 @@ func firstCallArg(fn *ssa.Function, spec string) ssa.Value {
 }
 
 func qual(fn *ssa.Function) string { return load.QualName(fn) }
+
+// Contradictions (every property, over the packages its own rules anchor in): no branch tests a value of a
+// `v, err := f()` call on a path that is only reachable with err != nil (q.ErrValueTests). Expected count on a correct
+// tree is zero; the self-test keeps positive examples (the pre-fix recoverUnconfirmedTx, seeded C19h).
+func Contradictions(c *q.Ctx) {
+	pkgs := map[string]bool{}
+	for name := range c.Fns {
+		if i := strings.Index(name, "::"); i > 0 {
+			pkgs[name[:i]] = true
+		}
+	}
+	if len(pkgs) == 0 {
+		return
+	}
+	in := func(path string) bool {
+		for p := range pkgs {
+			if strings.HasSuffix(path, p) {
+				return true
+			}
+		}
+		return false
+	}
+	sites := q.ErrValueTests(c.P, in)
+	for _, s := range sites {
+		c.Sites++
+		c.Fail("K1c", load.QualName(q.Top(s.Fn)), "no branch tests a call's value where its error is known to be non-nil: `"+q.Canon(s.Branch.Cond)+"`", c.At(s.Branch), "the value of "+q.Callee(s.Call.Common()).Name+" carries no information beside a non-nil error: the guarded branch is dead (wrong polarity of the error test?)")
+	}
+	if len(sites) == 0 {
+		c.OK("K1c", "packages of the anchored functions", "no branch tests a call's value where its error is known to be non-nil", "-", fmt.Sprintf("%d package(s) swept", len(pkgs)))
+	}
+}
